@@ -193,3 +193,18 @@ Definition run_refac (fid : Z) (a : list (list Z)) : option out :=
   | 31 => Some (of_res (set_state_body (ctrl_of (arg a 0))) (fun b => [bz b]))
   | _ => None
   end.
+
+Definition enc_view (v : view) : list Z :=
+  [boolz (v_power v); Z.of_N (v_target v); Z.of_N (v_mode v); Z.of_N (v_fan v); Z.of_N (v_swing v); boolz (v_eco v);
+   boolz (v_turbo v)] ++ optb (v_freeze v) ++ [boolz (v_sleep v); boolz (v_fahrenheit v); boolz (v_display v);
+   boolz (v_filter v); boolz (v_follow_me v); boolz (v_purifier v)] ++ optn (v_humidity v) ++ [Z.of_N (v_aux_mode v)].
+
+Definition run_refac2 (fid : Z) (a : list (list Z)) : option out :=
+  match fid with
+  | 32 => Some (match ref_report (zb (arg a 0)) with
+                | Some r => ok [enc_view (expected_view (zbool (argz a 1)) r);
+                                [Z.of_N (p_indoor_raw r); Z.of_N (p_indoor_digit r); Z.of_N (p_outdoor_raw r);
+                                 Z.of_N (p_outdoor_digit r); boolz (p_fahrenheit r)]]
+                | None => (1, []) end)
+  | _ => None
+  end.
